@@ -181,7 +181,11 @@ class ImportTools:
         return source
 
     def _is_transformable_to_normal(self, import_info):
-        return isinstance(import_info, FromImport)
+        # `from __future__ import x` is a compiler directive: `import __future__` does not replace it
+        return (
+            isinstance(import_info, FromImport)
+            and import_info.module_name != "__future__"
+        )
 
     def organize_imports(
         self,
